@@ -11,13 +11,16 @@ META = {
                   "modelled populated sections x 5 versions x 3 file kinds TLC checks: tracked cursor = bytes emitted, announced (count,offset) regions inside the file, pairwise "
                   "disjoint and equal to what was emitted, parse(write(x)) = x, byte-stable rewrite, Convert(v,v) = id, Convert(a,b) keeps Representable(a,b); ASSUMEs relate "
                   "the field-sum record sizes to the writer's constants (animation 32|52, bone 108|112|88, track 28|20, header 324|304), require the multi-step conversion path "
-                  "of every version pair to end in the target through adjacent steps, and require reader and writer to agree on derived counts (MAOF bone count, embedded-view "
-                  "batch count). Stage B (Gen_M2Layout): TLC enumerates the shape space (20 cardinality dimensions {0,1,3}, key frames on/off, float class, string lengths "
-                  "{0,1,260,261,1024} for model and texture names, 5 versions; skin layouts x array cardinalities; anim format x sections x bones x data) as deterministic slices "
+                  "of every version pair to end in the target through adjacent steps, require reader and writer to agree on derived counts (MAOF bone count, embedded-view "
+                  "batch count), the relocation map to be a function original offset -> new offset that never advances for an already-mapped (aliased) array, every "
+                  "non-empty array of an accepted structure to be preserved (ArraysPreserved) and save(path) to yield exactly the written bytes for every pre-state of the path. Stage B (Gen_M2Layout): TLC enumerates the shape space (20 cardinality dimensions {0,1,3}, key frames on/off, float class, string lengths "
+                  "{0,1,260,261,1024} for model and texture names, aliasing pattern of key-frame arrays, per-element presence pattern, independent presence mask of the "
+                  "parallel arrays ranges x timestamps x values, embedded-view counts {0,1,2,4}, save(path) pre-states, 5 versions; skin layouts x array cardinalities; anim format x sections x bones x data) as deterministic slices "
                   "+ seeded draws and emits with each shape the header positions and element sizes computed from the spec. Stage D (Trace_M2Layout): on the events recorded from "
                   "the real crate TLC decides per-section token equality Write-input vs Parse-output, byte equality of the rewrite, identity of (v,v) conversions (tokens and "
                   "bytes), preservation of the cross-version token of every Representable(a,b) section in memory and after write+parse for BOTH M2Converter::convert and "
-                  "M2Model::convert on all 25 version pairs, resulting version = end of the spec's conversion path, skin/anim conversions, and - by integer arithmetic on the "
+                  "M2Model::convert on all 25 version pairs, resulting version = end of the spec's conversion path, header counts (num_skin_profiles / views.count) = ExpectedProfiles / ExpectedViewsAfterParse, "
+                  "file contents after save(path) = written bytes, skin/anim conversions, and - by integer arithmetic on the "
                   "(count, offset, element size) triples an independent walker read from the bytes - that the announced arrays lie inside the file and are pairwise disjoint.",
     "level_note": "Observed only, as opaque tokens: all payloads (floats, key-frame bytes, names, vertices ...): a token is the digest of the Debug rendering of a section with "
                   "derived offsets projected away; TLC compares tokens, it does not interpret payload bytes. Stage A is a statement about the model; stages C+D bind the code. "
@@ -52,6 +55,12 @@ def sig(b):
         s["texlen"] = r.get("texlen", -1)
         if rec.get("ev") == "Convert":
             s["api"] = rec.get("api")
+        # array presence masks of the elements (bit 1 ranges, 2 timestamps, 4 values); ranges_only = some element's tracks
+        # carry ranges but neither timestamps nor values
+        am, rot = r.get("amask", -1), bool(r.get("arot"))
+        masks = [] if am is None or am < 0 else ([(am + 3 * i) % 8 for i in range(3)] if rot else [am])
+        s["amask"] = am
+        s["ranges_only"] = 1 in masks
         s["sec_card"] = shape.get(sec.rstrip("+"), -1)
         # events carry a `ranges` array only for source versions < 264 (see assumptions)
         s["ev_ranges"] = bool(r.get("kf")) and shape.get("events", 0) > 0 and int(r.get("vn") or 0) < 264
@@ -103,7 +112,7 @@ def run(ctx, cases_override=None, only=None):
             r = json.loads(line)
             kinds[r["ev"]] = kinds.get(r["ev"], 0) + 1
             if r["ev"] == "Reset":
-                shapes.add(json.dumps([r["fmt"], r["ver"], r["kf"], r["floats"], r["shape"], r.get("namelen", -1), r.get("texlen", -1), r.get("alias", 0), r.get("kfmask", -1), r.get("mask", -1)], sort_keys=True))
+                shapes.add(json.dumps([r["fmt"], r["ver"], r["kf"], r["floats"], r["shape"], r.get("namelen", -1), r.get("texlen", -1), r.get("alias", 0), r.get("kfmask", -1), r.get("mask", -1), r.get("amask", -1), r.get("arot", False)], sort_keys=True))
             if kinds[r["ev"]] <= 1:
                 s = dict(r)
                 for k in ("secs", "psecs"):
@@ -121,7 +130,7 @@ def run(ctx, cases_override=None, only=None):
         "evaluations": res["events"] - res["traces"],
         "distinct_nontrivial": nontrivial,
         "rule": "counted from the Reset events of the trace actually validated: distinct (format, version, key-frame switch, float class, cardinality vector / anim shape, "
-                "name length, texture-name length, aliasing pattern, per-element presence pattern) tuples with at least one populated section (a non-zero cardinality; for anim a non-zero section/bone count or data); "
+                "name length, texture-name length, aliasing pattern, per-element presence pattern, array presence mask) tuples with at least one populated section (a non-zero cardinality; for anim a non-zero section/bone count or data); "
                 "every case is written, walked, parsed, rewritten and converted (M2: to all 5 versions through both public APIs; skin: 4 targets; anim: 2)",
         "exhaustive": False,
         "rejected_pairs": len(bad),
